@@ -214,6 +214,7 @@ type Exec struct {
 	nextTok  uint64
 	gasPrices []sdk.DecCoin
 	oracleFee sdk.Dec
+	HashDiff  []int // events after which a second execution of the same history committed another app hash
 }
 
 func addrInt(a []byte) *big.Int { return new(big.Int).SetBytes(a) }
